@@ -14,6 +14,7 @@ import (
 	"verif/core"
 	_ "verif/props/c05"
 	_ "verif/props/c12"
+	_ "verif/props/c13"
 )
 
 func main() {
